@@ -213,25 +213,56 @@ def _hendrix(ctx, col):
             ctx.ct.require(cls, "_construct_random_event_space")[1].lineno, okx,
             "events indexed over the box [0, max_stock_a] x [0, max_stock_b]" if okx else f"event index is {show_norm(idx)[:200]}",
             text="event index dimensions")
-    # pu / pz builders: distributions and argument roles
+    # pu / pz builders: every table entry is the documented sum, as a term
     I3 = problem_interp(ctx, cls)
-    pu, pz = I3.attrs.get("pu"), I3.attrs.get("pz")
+    pu = I3.attrs.get("pu")
     sub = cfgsym("substitution_probability")
-    pois_b = [t for t in subterms(pu) if t[0] == "app" and t[1] == "scipy.stats.poisson.pmf"]
-    binoms = [t for t in subterms(pu) if t[0] == "app" and t[1] == "scipy.stats.binom.pmf"]
-    ok_pu = bool(pois_b) and bool(binoms) and all(t[2][1] == mb for t in pois_b) and all(t[2][2] == sub for t in binoms)
-    # binom.pmf(k=u, n=x, p): the count of substitutions first, the number of unmet demands second
-    for t in binoms:
-        k_, n_ = t[2][0], t[2][1]
-        if not (n_[0] == "app" and n_[1] == "arange") or (k_[0] == "app" and k_[1] == "arange"):
-            ok_pu = False
+    zeros_t = ("app", "zeros", (("tuple", (T_add(MD, ONE), T_add(Mb, ONE))),))
+
+    def pu_entry(k, y):
+        rng = ("app", "arange", (k, T_sub(MD, y)))
+        pois = ("app", "scipy.stats.poisson.pmf", (T_add(rng, y), mb))
+        bino = ("app", "scipy.stats.binom.pmf", (k, rng, sub))
+        return I3.dot(pois, bino)
+
+    ok_pu, why_pu = False, "substitution table is not built by the documented double loop"
+    if pu is not None and pu[0] == "fold" and pu[2] == T_add(Mb, ONE) and pu[3] == zeros_t and pu[4][0] == "fold":
+        y, cur_y, inner = pu[1], pu[5], pu[4]
+        u, cur_u = inner[1], inner[5]
+        want_init = ("scatter", cur_y, ("tuple", (ZERO, y)), pu_entry(ZERO, y))
+        want_body = ("scatter", cur_u, ("tuple", (T_add(u, ONE), y)), pu_entry(T_add(u, ONE), y))
+        cnt_ok = inner[2] == T_sub(T_sub(MD, y), ONE)
+        if inner[3] != want_init:
+            why_pu = f"pu[0, y] is {brief(inner[3][3] if inner[3][0] == 'scatter' else inner[3], 260)}; documented: sum_x Poisson(x + y; mean_b) * Binomial(0; x, substitution_probability)"
+        elif inner[4] != want_body:
+            why_pu = f"pu[u, y] is {brief(inner[4][3] if inner[4][0] == 'scatter' else inner[4], 260)}; documented: sum_(x>=u) Poisson(x + y; mean_b) * Binomial(u; x, substitution_probability)"
+        elif not cnt_ok:
+            why_pu = f"u ranges over {show_norm(inner[2])} values, documented 1 .. max_demand - y - 1"
+        else:
+            ok_pu, why_pu = True, "pu[u, y] = sum_(x >= u, x + y < max_demand) Poisson(x + y; mean_b) * Binomial(u; x, substitution_probability) for every u >= 0 and y"
     o_pu, f_pu = ctx.ct.require(cls, "_calculate_pu")
-    col.add("R16.6", "HendrixTwoProductPerishable._calculate_pu", o_pu.module.relpath, f_pu.lineno, ok_pu,
-            "pu[u,y] = sum_x Poisson(x+y; mean_b) * Binomial(u; x, substitution_probability)" if ok_pu else
-            "substitution table does not combine Poisson(mean_b) with Binomial(u; x, substitution_probability)", text="pu builder")
-    pois_a = [t for t in subterms(pz) if t[0] == "app" and t[1] == "scipy.stats.poisson.pmf" and t[2][1] == ma]
-    uses_pu = any(t == pu for t in subterms(pz))
+    col.add("R16.6", "HendrixTwoProductPerishable._calculate_pu", o_pu.module.relpath, f_pu.lineno, ok_pu, why_pu, text="pu builder")
+    # pz with pu symbolic
+    I4 = problem_interp(ctx, cls)
+    I4.attrs["pu"] = S("PU")
+    pz = I4.call_method("_calculate_pz")
+    pa_t = ("app", "scipy.stats.poisson.pmf", (("app", "arange", (T_add(MD, ONE),)), ma))
+    allsl_ = ("slice", NONE, NONE, NONE)
+    ok_pz, why_pz = False, "total-demand table is not built by the documented convolution"
+    if pz[0] == "fold" and pz[2] == T_add(Mb, ONE) and pz[4][0] == "fold":
+        y, cur_y, inner = pz[1], pz[5], pz[4]
+        z, cur_z = inner[1], inner[5]
+        row0 = T_mul(I4.index(pa_t, ZERO), I4.index(S("PU"), ("tuple", (ZERO, allsl_))))
+        want_init = ("scatter", zeros_t, ("tuple", (ZERO, allsl_)), row0)
+        zz = T_add(z, ONE)
+        ks = ("app", "arange", (ZERO, T_add(zz, ONE)))
+        conv = I4.dot(I4.index(pa_t, ks), I4.index(S("PU"), ("tuple", (T_sub(zz, ks), y))))
+        want_body = ("scatter", cur_z, ("tuple", (zz, y)), conv)
+        if pz[3] != want_init:
+            why_pz = f"pz[0, :] is {brief(pz[3], 240)}; documented pa[0] * pu[0, :]"
+        elif inner[3] != cur_y or not same(inner[4], want_body) or inner[2] != MD:
+            why_pz = f"pz[z, y] is {brief(inner[4], 300)}; documented sum_(k <= z) Poisson(k; mean_a) * pu[z - k, y]"
+        else:
+            ok_pz, why_pz = True, "pz[z, y] = sum_(k <= z) Poisson(k; mean_a) * pu[z - k, y], pz[0, :] = Poisson(0; mean_a) * pu[0, :]"
     o_pz, f_pz = ctx.ct.require(cls, "_calculate_pz")
-    ok_pz = bool(pois_a) and uses_pu
-    col.add("R16.6", "HendrixTwoProductPerishable._calculate_pz", o_pz.module.relpath, f_pz.lineno, ok_pz,
-            "pz = Poisson(mean_a) convolved with pu" if ok_pz else "total-demand table does not convolve Poisson(mean_a) with pu", text="pz builder")
+    col.add("R16.6", "HendrixTwoProductPerishable._calculate_pz", o_pz.module.relpath, f_pz.lineno, ok_pz, why_pz, text="pz builder")
